@@ -8,6 +8,7 @@ VARIABLE l
 
 Dev(e) == IF Dev_KindMissingFromLess(e) THEN "Dev_KindMissingFromLess"
           ELSE IF Dev_WrappedNilPanicsInLess(e) THEN "Dev_WrappedNilPanicsInLess"
+          ELSE IF Dev_HugeSizeEmptyPage(e) THEN "Dev_HugeSizeEmptyPage"
           ELSE "NONE"
 
 Judge(e) == e.ev = "range" /\ RangeOK(e)
